@@ -354,7 +354,8 @@ func IPv6FindUpperProtocol(packet []byte) (nextHeader uint8, offset int, isFragm
 	nextHeader = packet[6]
 	offset = ipv6.HeaderLen
 
-	for range maxIPv6ExtHeaders {
+	// One extra pass so the header following the last allowed extension header is still classified
+	for range maxIPv6ExtHeaders + 1 {
 		switch nextHeader {
 		case 0, 43, 60: // Hop-by-Hop, Routing, Destination
 			if len(packet) < offset+2 {
@@ -391,7 +392,8 @@ func IPv6FindUpperProtocol(packet []byte) (nextHeader uint8, offset int, isFragm
 			return nextHeader, offset, isFragment, anyFragment, nil
 		}
 	}
-	return nextHeader, offset, isFragment, anyFragment, nil
+	// More than maxIPv6ExtHeaders extension headers, nextHeader has not been classified as an upper-layer protocol
+	return nextHeader, offset, isFragment, anyFragment, ErrIPv6CouldNotFindPayload
 }
 
 func CreateICMPEchoResponse(packet, out []byte) []byte {
